@@ -59,10 +59,11 @@ DESCRIBE = {
 }
 RULE = ("alphabet: files A,B x paths {/, /a, /a/b, /c} plus the prefix-sibling pairs /a~/ab, /a/b~/a/bc in file A; full = 309 ops: create(a/w at every file x path, r+ at two), "
         "cp/mv/ln/ln -s for every (src file, src path, dst file, dst path), overwrite variants; reduced = 59 ops; URIs with "
-        "and without leading slash (hash-chosen per op, both forms in observations). quick: every op of the full alphabet "
+        "and without leading slash (hash-chosen per op, both forms in observations). quick: every op of the REDUCED alphabet "
         "at every model-distinct state reachable in <=1 state-changing step from I1 (A holds /a and an unrelated root "
-        "attribute; B absent) and every op of the reduced alphabet at every state <=1 step from I2 (A holds / and /a/b, B "
-        "holds /c) [= all histories of length <=2 up to model-state equality]; thorough: full alphabet to length 2 from "
+        "attribute; B absent) and from I2 (A holds / and /a/b, B holds /c) [= all its histories of length <=2 up to "
+        "model-state equality], every op of the full alphabet at I1 and, in alternate slices of 75 ops, at the states one "
+        "step from I1; thorough: full alphabet to length 2 from "
         "both, reduced alphabet to length 3 from both; plus 160 / 1500 seeded random histories of 2..6 operations after 1-3 "
         "creates, steered by the model towards existing sources and away from steps without a verdict; corpus of past "
         "findings first; non-trivial = contains a copy/move/link; distinct by canonical JSON")
@@ -72,9 +73,9 @@ TRUSTED = ["HDF5/h5py (groups, hard/soft/external links, attributes, file modes,
            "case enumeration uses the model's state digest to visit each reachable state once (selection only, no verdict)"]
 ASSUMPTIONS = [
     "a step the model marks as an unmodelled h5py corner ends the history without a verdict (counted in stats as "
-    "corner:<reason>; the step is not executed, except that a step leaving a cyclic namespace made of soft/external "
-    "links IS executed and existence, is_cooler and the root attribute are compared, only list_coolers and the reads "
-    "being left out): (1) 'hard link below its own target (cycle)' and 'cyclic namespace' — "
+    "corner:<reason>; the step is not executed, except that a step leaving an INFINITE namespace — a resolvable link "
+    "to an ancestor — IS executed and existence, is_cooler and the root attribute are compared, only list_coolers and "
+    "the reads being left out; cycles of links that cannot be traversed are fully compared since fix D28): (1) 'hard link below its own target (cycle)' and 'cyclic namespace' — "
     "since fix D26 the direct spellings (same-file mv/ln/ln -s with the destination equal to or under the source path) "
     "are refused with ValueError and ARE checked (regression guard); what remains without a verdict are cycles that "
     "arise only through links (ln/mv whose destination resolves, through a soft link, inside the linked group; soft "
@@ -429,7 +430,7 @@ class Sess:
         if impl == mod:
             self.vops.append(dict(op, v=_vdict(self.flags)))
             self.trace.append(impl)
-            return ("corner", "cyclic namespace (is_cooler compared, listing not attempted)") if cyc else None
+            return ("corner", "infinite namespace (is_cooler compared, listing not attempted)") if cyc else None
         ex = self._explain(op, impl)
         if ex is not None and ex[0] == "corner":
             return ex
@@ -441,7 +442,7 @@ class Sess:
             self.trace.append(impl)
             self.dev.append({"ids": [FID[x] for x in sub], "step": k, "from": first, "ops": [_strip(o) for o in vops],
                              "flags": [o["v"] for o in vops], "impl_trace": self.trace[first:]})
-            return ("corner", "cyclic namespace (is_cooler compared, listing not attempted)") if cyc else None
+            return ("corner", "infinite namespace (is_cooler compared, listing not attempted)") if cyc else None
         diff = _diff(impl, mod)
         return ("mismatch", {"step": k, "op": op, "diff": diff, "impl_outcome": impl_out if impl_out == "ok" else list(impl_out),
                              "model_outcome": m["outcome"], "flags_on": sorted(self.flags)})
@@ -805,6 +806,11 @@ CORPUS = [
     # re-creation at the root in append mode with another count dtype / bin type reads like a fresh creation
     [_mk_create(FA, "/", "a", 1), _mk_create(FA, "/", "a", 501), _mk_create(FA, "/", "a", 2), _mk_create(FA, "/", "a", 701),
      _mk_create(FA, "/", "r+", 502), _mk_create(FA, "/a", "a", 503), _mk_create(FA, "/a", "a", 3)],
+    # D28 (fixed): list_coolers walks past links that cannot be traversed (a link through itself, two links pointing
+    # at each other) and lists the collections the file holds
+    [_mk_create(FB, "/c", "a", 1), _mk_copy("lns", FB, "/a/b", FB, "/a")],
+    [_mk_create(FA, "/a/b", "a", 1), _mk_copy("lns", FA, "/c", FA, "/ab"), _mk_copy("lns", FA, "/ab", FA, "/c"),
+     _mk_create(FA, "/a", "a", 2)],
     # soft links closing a cycle (the first is created before its target exists): is_cooler answers False
     [_mk_create(FA, "/a", "a", 1), _mk_copy("lns", FA, "/a/b", FA, "/c"), _mk_copy("lns", FA, "/c", FA, "/a/b")],
     [_mk_create(FA, "/a", "a", 1), _mk_copy("lns", FA, "/c", FA, "/ab"), _mk_copy("lns", FA, "/ab", FA, "/c")],
@@ -840,13 +846,17 @@ def cases(tier, rng):
     for lo in range(0, nfull, FANCHUNK):
         yield "errclass", {"init": "I1", "prefix": [], "alphabet": "full", "lo": lo, "hi": lo + FANCHUNK, "layout": lay()}
         yield "errclass", {"init": "I2", "prefix": [], "alphabet": "full", "lo": lo, "hi": lo + FANCHUNK, "layout": lay()}
-    plan = [("I1", "full", 1), ("I2", "reduced", 1)]
+    plan = [("I1", "full", 1), ("I1", "reduced", 1), ("I2", "reduced", 1)]
     if thorough:
         plan = [("I1", "full", 1), ("I2", "full", 1), ("I1", "reduced", 2), ("I2", "reduced", 2)]
     for init, alphabet, depth in plan:
         n = len(ALPHABETS[alphabet]())
-        for pre in _prefixes(init, alphabet, depth):
-            for lo in range(0, n, FANCHUNK):
+        for ip, pre in enumerate(_prefixes(init, alphabet, depth)):
+            for ic, lo in enumerate(range(0, n, FANCHUNK)):
+                # quick: after a non-empty prefix the full alphabet is applied in alternate slices (every op at every
+                # second reached state); the reduced alphabet and the initial states get every op
+                if not thorough and alphabet == "full" and pre and (ip + ic) % 2:
+                    continue
                 yield "fan", {"init": init, "prefix": pre, "alphabet": alphabet, "lo": lo, "hi": lo + FANCHUNK, "rk": rk(),
                               "layout": lay()}
     nrk[0] = 0
